@@ -14,13 +14,15 @@ import (
 )
 
 type round struct {
-	Data  []byte   // bytes to send for this request
-	Segs  []int    // write sizes, cycled (nil = one write)
-	End   string   // fin (half-close, drain, close) | keep (wait for next request) | rst | hold
-	Hold  int      // ms to keep the connection open before closing (hold)
-	Pause int      // ms to wait after the first segment
-	Steps []H2Step // h2 only: writes triggered by what the client has sent (replaces Data)
-	conns *int32   // h2 / h3: connections the peer accepted for this script
+	Data      []byte   // bytes to send for this request
+	Segs      []int    // write sizes, cycled (nil = one write)
+	End       string   // fin (half-close, drain, close) | keep (wait for next request) | rst | hold
+	Hold      int      // ms to keep the connection open before closing (hold)
+	Pause     int      // ms to wait after the first segment
+	Steps     []H2Step // h2 only: writes triggered by what the client has sent (replaces Data)
+	PingAcks  int
+	PingOther bool
+	conns     *int32 // h2 / h3: connections the peer accepted for this script
 }
 
 // H2Step: wait for an event of the client (nothing | its next complete HEADERS block | its next
